@@ -45,6 +45,15 @@ func init() {
 		w.Silent = map[string]bool{"ATOM": true}
 		g.Free(20, func(int) int64 { return 8 })
 		w.Silent = map[string]bool{}
+		// the feed of the base currency, then of the third asset, lapses while the others stay live:
+		// the market rate of orders quoted in / against them cannot be formed
+		for _, a := range []string{"USDC", "ELYS"} {
+			g.Free(4, nil)
+			w.Silent = map[string]bool{a: true}
+			g.Free(16, func(int) int64 { return 8 })
+			w.Silent = map[string]bool{}
+			c.Ev("feed_lapsed/" + a)
+		}
 		w.Prices["ATOM"] = w.Prices["ATOM"].Mul(chain.Dec("1.3"))
 		g.Free(seg, nil)
 		// everybody executes everything, then owners cancel what is left
